@@ -132,6 +132,19 @@ def borrow(pid, macro, variant):
         L.append("let r = { let rx = &mut x; let rk = &k; %s };" % text)
         L.append("vassert!(r == Some(((x0 ^ k).wrapping_add(1), (nosend(y), 5u8), k ^ 1)), \"C19[%s]: values over move-only / borrowed data (try)\");" % pid)
         L.append("vassert!(x == (x0 ^ k).wrapping_add(1), \"C19[%s]: mutable borrow took effect\");" % pid)
+    elif is_async and variant == 1:
+        # unequal depths: the move-only !Send value travels through a step in which its branch is the ONLY active one (awaited directly, not joined)
+        if not is_try:
+            text = ("%s! {\n        ready(rx) ~|> |r: &mut u8| { *r ^= k; *r = r.wrapping_add(1); *r },\n        ready(t) ~|> |t: NoSend| (t, 5u8) ~|> |p: (NoSend, u8)| (p.0, p.1 ^ 1),\n"
+                    "        ready(rk)\n    }" % macro)
+            exp = "Poll::Ready(((x0 ^ k).wrapping_add(1), (nosend(y), 4u8), &k))"
+        else:
+            text = ("%s! {\n        ready(Ok::<_, u8>(rx)) ~|> |r: Result<&mut u8, u8>| r.map(|r| { *r ^= k; *r = r.wrapping_add(1); *r }),\n"
+                    "        ready(Ok::<_, u8>(t)) ~|> |t: Result<NoSend, u8>| t.map(|t| (t, 5u8)) ~|> |p: Result<(NoSend, u8), u8>| p.map(|p| (p.0, p.1 ^ 1)),\n        ready(Ok::<_, u8>(rk))\n    }" % macro)
+            exp = "Poll::Ready(Ok(((x0 ^ k).wrapping_add(1), (nosend(y), 4u8), &k)))"
+        L.append("let r = { let rx = &mut x; let rk = &k; let mut f = %s; poll_once(&mut f) };" % text)
+        L.append("vassert!(r == %s, \"C19[%s]: a move-only !Send value in a step with a single active branch of an async macro (no Send / 'static needed)\");" % (exp, pid))
+        L.append("vassert!(x == (x0 ^ k).wrapping_add(1), \"C19[%s]: mutable borrow took effect\");" % pid)
     elif is_async and not is_try:
         text = ("%s! {\n        ready(rx) ~|> |r: &mut u8| { *r ^= k; *r = r.wrapping_add(1); *r },\n        ready(t) ~|> |t: NoSend| (t, 5u8),\n"
                 "        ready(rk) ~|> |r: &u8| *r ^ 1\n    }" % macro)
@@ -145,7 +158,7 @@ def borrow(pid, macro, variant):
         L.append("vassert!(r == Poll::Ready(Ok(((x0 ^ k).wrapping_add(1), (nosend(y), 5u8), k ^ 1))), \"C19[%s]: values over move-only / borrowed data (async try)\");" % pid)
         L.append("vassert!(x == (x0 ^ k).wrapping_add(1), \"C19[%s]: mutable borrow took effect\");" % pid)
     L.append("vcover!(true, \"end reached\");")
-    return Program(pid, text, "    " + "\n    ".join(L), desc=dict(macro=macro, values="&mut u8, &u8, move-only !Send struct"), group="bounds/" + macro, role=dict(kind=macro),
+    return Program(pid, text, "    " + "\n    ".join(L), desc=dict(macro=macro, values="&mut u8, &u8, move-only !Send struct", depths="unequal (lone tail step)" if variant == 1 else "equal"), group="bounds/" + macro + ("/lone-step" if variant == 1 else ""), role=dict(kind=macro),
                    unwind=12, weight=3, solo=is_async)
 
 
@@ -208,6 +221,9 @@ def programs_main(tier, seed):
     for macro in ("join", "try_join", "join_async", "try_join_async"):
         i += 1
         ps.append(borrow("p%04d" % i, macro, 0))
+    for macro in ("join_async", "try_join_async"):
+        i += 1
+        ps.append(borrow("p%04d" % i, macro, 1))
     return ps
 
 
